@@ -103,6 +103,8 @@ impl CKBProtocolHandler for SyncProtocol {
                         return;
                     }
                 }
+                #[cfg(feature = "verif")]
+                crate::verif_hooks::at(crate::verif_hooks::Point::LockIntent("sync.send_block"));
                 let mut matched_blocks = self.peers.matched_blocks().write().expect("poisoned");
                 self.peers.add_block(&mut matched_blocks, new_block);
 
